@@ -14,7 +14,9 @@ package main
 
 import (
 	"context"
+	"errors"
 	"fmt"
+	"io"
 	"math/rand"
 	"net"
 	"strings"
@@ -40,7 +42,16 @@ type e2eCluster struct {
 	committed map[string]map[int32]commitState
 	asked     map[int32]int // broker id -> number of owner-only requests (list offsets, offset fetch/commit) received
 	conns     []net.Conn
+	// transport-level faults
+	refuse    map[int32]bool // dialling this broker is refused
+	dropOnLO  map[int32]bool // this broker closes the connection when it receives a ListOffsets request
+	ghost     map[int32]bool // partition whose leader id (in the metadata) is not in the broker list
+	hidden    map[int32]bool // partition the metadata does not list
+	bootstrap int32
+	ctrlDials int // dials of the bootstrap address so far (the first one is the Transport's control connection)
 }
+
+const e2eGhostLeader = 77
 
 func e2eHost(id int) string { return fmt.Sprintf("e2e-b%d", id) }
 
@@ -49,6 +60,12 @@ func (e *e2eCluster) dial(ctx context.Context, network, address string) (net.Con
 	if _, err := fmt.Sscanf(address, "e2e-b%d:9092", &id); err != nil || id < 0 || id >= e.nb {
 		return nil, fmt.Errorf("e2e: no broker at %s", address)
 	}
+	e.mu.Lock()
+	if e.refuse[int32(id)] {
+		e.mu.Unlock()
+		return nil, &fakeErr{id: 1}
+	}
+	e.mu.Unlock()
 	a, b := net.Pipe()
 	e.mu.Lock()
 	e.conns = append(e.conns, b)
@@ -91,7 +108,14 @@ func (e *e2eCluster) serve(id int32, c net.Conn) {
 			}
 			t := metadata.ResponseTopic{Name: e.topic}
 			for p, st := range e.parts {
-				t.Partitions = append(t.Partitions, metadata.ResponsePartition{PartitionIndex: int32(p), LeaderID: st.leader, ReplicaNodes: []int32{st.leader}, IsrNodes: []int32{st.leader}})
+				if e.hidden[int32(p)] {
+					continue
+				}
+				l := st.leader
+				if e.ghost[int32(p)] {
+					l = e2eGhostLeader
+				}
+				t.Partitions = append(t.Partitions, metadata.ResponsePartition{PartitionIndex: int32(p), LeaderID: l, ReplicaNodes: []int32{l}, IsrNodes: []int32{l}})
 			}
 			r.Topics = []metadata.ResponseTopic{t}
 			res = r
@@ -103,6 +127,10 @@ func (e *e2eCluster) serve(id int32, c net.Conn) {
 				res = &findcoordinator.Response{NodeID: co, Host: e2eHost(int(co)), Port: 9092}
 			}
 		case *listoffsets.Request:
+			if e.dropOnLO[id] {
+				e.mu.Unlock()
+				return // the deferred Close drops the connection with the request unanswered
+			}
 			e.asked[id]++
 			r := &listoffsets.Response{}
 			for _, t := range m.Topics {
@@ -200,7 +228,8 @@ func (e *e2eCluster) fetchOne(owner bool, group string, p int32) offsetfetch.Res
 
 func genE2E(r *rand.Rand) (*e2eCluster, int) {
 	e := &e2eCluster{nb: 2 + r.Intn(3), topic: []string{"orders", "e2e-topic", "t"}[r.Intn(3)],
-		coord: map[string]int32{}, committed: map[string]map[int32]commitState{}, asked: map[int32]int{}}
+		coord: map[string]int32{}, committed: map[string]map[int32]commitState{}, asked: map[int32]int{},
+		refuse: map[int32]bool{}, dropOnLO: map[int32]bool{}, ghost: map[int32]bool{}, hidden: map[int32]bool{}}
 	np := 2 + r.Intn(5)
 	for p := 0; p < np; p++ {
 		st := &partState{leader: int32(r.Intn(e.nb)), epoch: int32(r.Intn(9)), start: int64(r.Intn(500))}
@@ -227,6 +256,7 @@ func genE2E(r *rand.Rand) (*e2eCluster, int) {
 		}
 	}
 	bootstrap := 1 + r.Intn(e.nb-1) // never broker 0
+	e.bootstrap = int32(bootstrap)
 	return e, bootstrap
 }
 
@@ -384,4 +414,166 @@ func sortedOffsets(m map[int64]time.Time) []int64 {
 		}
 	}
 	return l
+}
+
+// ---------------------------------------------------------------- transport-level faults
+
+// e2eErrClass names the transport-level failure behind an error of the call: 1 = the dial
+// was refused, 2 = the connection was dropped with the request unanswered, 3 = the
+// partition's leader is not among the brokers of the layout (ErrNoLeader), 4 = the
+// partition is not in the layout (ErrNoPartition).
+func e2eErrClass(err error) string {
+	var fe *fakeErr
+	switch {
+	case errors.As(err, &fe) || strings.Contains(err.Error(), "fake failure 1"):
+		return "1"
+	case errors.Is(err, protocol.ErrNoLeader) || errors.Is(err, kafka.BrokerNotAvailable):
+		return "3"
+	case errors.Is(err, protocol.ErrNoPartition):
+		return "4"
+	case errors.Is(err, io.EOF) || errors.Is(err, io.ErrUnexpectedEOF) || errors.Is(err, io.ErrClosedPipe) || strings.Contains(err.Error(), "closed"):
+		return "2"
+	}
+	return "?" + strings.ReplaceAll(err.Error(), " ", "_")
+}
+
+// expectedOutcome: what the Transport's sub-request for (partition, ts) must come back with,
+// given the faults: the owner's answer, or a failure (the sub-request is not even sent when
+// the layout does not list the partition or its leader).
+func (e *e2eCluster) expectedOutcome(p int32, ts int64) string {
+	ans := func(a listoffsets.ResponsePartition) string {
+		return "A/" + I(int64(a.ErrorCode)) + "/" + I(a.Timestamp) + "/" + I(a.Offset) + "/" + I(int64(a.LeaderEpoch)) + "/0"
+	}
+	if int(p) >= len(e.parts) || e.hidden[p] {
+		return "F/4"
+	}
+	l := e.parts[p].leader
+	switch {
+	case e.ghost[p]:
+		return "F/3"
+	case e.refuse[l]:
+		return "F/1"
+	case e.dropOnLO[l]:
+		return "F/2"
+	}
+	return ans(e.listOffset(-1, e.topic, p, ts))
+}
+
+// tierE2EFaults: Client.ListOffsets over several partitions through the real Transport while
+// some sub-requests fail at the transport level.  Expected (the model's Merge over the
+// positionally aligned outcomes): healthy partitions report the owners' offsets, a failed
+// sub-request's partition carries an error, the call succeeds unless every sub-request failed.
+func tierE2EFaults(r *rand.Rand, n int) {
+	for i := 0; i < n; i++ {
+		e, bootstrap := genE2E(r)
+		fault := []string{"refused", "dropped", "ghost-leader", "hidden-partition", "mixed", "all-failed"}[i%6]
+		np := len(e.parts)
+		victim := int32(r.Intn(np))
+		setFault := func(kind string, p int32) {
+			l := e.parts[p].leader
+			switch kind {
+			case "refused":
+				if l == int32(bootstrap) { // the control connection must come up: move the partition to another broker first
+					l = (l + 1) % int32(e.nb)
+					e.parts[p].leader = l
+				}
+				e.refuse[l] = true
+			case "dropped":
+				if l == int32(bootstrap) {
+					l = (l + 1) % int32(e.nb)
+					e.parts[p].leader = l
+				}
+				e.dropOnLO[l] = true
+			case "ghost-leader":
+				e.ghost[p] = true
+			case "hidden-partition":
+				e.hidden[p] = true
+			}
+		}
+		switch fault {
+		case "mixed":
+			for _, k := range []string{"refused", "dropped", "ghost-leader", "hidden-partition"} {
+				if r.Intn(2) == 0 {
+					setFault(k, int32(r.Intn(np)))
+				}
+			}
+			setFault([]string{"refused", "dropped", "ghost-leader"}[r.Intn(3)], victim)
+		case "all-failed":
+			kind := []string{"ghost-leader", "hidden-partition", "refused", "dropped"}[r.Intn(4)]
+			for p := 0; p < np; p++ {
+				setFault(kind, int32(p))
+			}
+		default:
+			setFault(fault, victim)
+		}
+		tr := &kafka.Transport{Dial: e.dial, DialTimeout: 2 * time.Second}
+		client := &kafka.Client{Addr: kafka.TCP(e2eHost(bootstrap) + ":9092"), Transport: tr, Timeout: 5 * time.Second}
+		var reqs []kafka.OffsetRequest
+		for p := 0; p < np; p++ {
+			if int32(p) != victim && r.Intn(5) == 0 {
+				continue
+			}
+			switch r.Intn(3) {
+			case 0:
+				reqs = append(reqs, kafka.FirstOffsetOf(p))
+			case 1:
+				reqs = append(reqs, kafka.LastOffsetOf(p))
+			default:
+				reqs = append(reqs, kafka.FirstOffsetOf(p), kafka.LastOffsetOf(p))
+			}
+			if r.Intn(4) == 0 {
+				reqs = append(reqs, kafka.OffsetRequest{Partition: p, Timestamp: 1600000000000 + int64(r.Intn(150))})
+			}
+		}
+		if r.Intn(6) == 0 {
+			reqs = append(reqs, kafka.LastOffsetOf(np)) // a partition nobody has
+		}
+		t0 := time.Now()
+		res, err := client.ListOffsets(context.Background(), &kafka.ListOffsetsRequest{Topics: map[string][]kafka.OffsetRequest{e.topic: reqs}})
+		feats := []string{"e2e", "fault=" + fault, fmt.Sprintf("brokers=%d", e.nb)}
+		if time.Since(t0) > time.Second {
+			feats = append(feats, "slow")
+		}
+		ul := make([]string, len(reqs))
+		outs := make([]string, len(reqs))
+		pq := &listoffsets.Request{ReplicaID: -1, Topics: []listoffsets.RequestTopic{{Topic: e.topic}}}
+		nfail := 0
+		e.mu.Lock()
+		for k, q := range reqs {
+			ul[k] = I(int64(q.Partition)) + "/" + I(q.Timestamp)
+			outs[k] = e.expectedOutcome(int32(q.Partition), q.Timestamp)
+			if outs[k][0] == 'F' {
+				nfail++
+			}
+			pq.Topics[0].Partitions = append(pq.Topics[0].Partitions, listoffsets.RequestPartition{Partition: int32(q.Partition), CurrentLeaderEpoch: -1, Timestamp: q.Timestamp})
+		}
+		e.mu.Unlock()
+		switch {
+		case nfail == len(reqs):
+			feats = append(feats, "all-failed")
+		case nfail > 0:
+			feats = append(feats, "some-failed")
+		default:
+			feats = append(feats, "none-failed")
+		}
+		args := "0 " + S(e.topic) + ":" + strings.Join(ul, ",") + " " + join(outs, "~")
+		q := "Q" + fmtReq(pq, "@")
+		if err != nil {
+			emit("lo", args, q+" E"+e2eErrClass(err), feats)
+		} else {
+			var entries []string
+			ps := append([]kafka.PartitionOffsets{}, res.Topics[e.topic]...)
+			sortPartitionOffsets(ps)
+			for _, p := range ps {
+				var ol []string
+				for _, o := range sortedOffsets(p.Offsets) {
+					ol = append(ol, I(o)+"="+fmtTime(p.Offsets[o]))
+				}
+				entries = append(entries, S(e.topic)+"/"+I(int64(p.Partition))+"/"+I(p.FirstOffset)+"/"+I(p.LastOffset)+"/"+code(p.Error)+"/"+join(ol, "+"))
+			}
+			emit("lo", args, q+" R"+I(int64(res.Throttle/time.Millisecond))+"@"+join(entries, ","), feats)
+		}
+		e.close()
+		tr.CloseIdleConnections()
+	}
 }
